@@ -248,7 +248,9 @@ PLANS["C11"] = {
     "mc": [{"module": "MCUtf8", "model": "utf8", "kind": "bytes", "constants": {"MaxLen": {"quick": 3, "thorough": 4}},
             "invariants": ["StreamingEqualsWhole", "NothingLost", "Emit"], "ports": ports({"bytes": 1}, {"bytes": 1})},
            {"module": "MCUtf8", "model": "utf8-deep", "kind": "bytes", "constants": {"MaxLen": {"quick": 4, "thorough": 5}}, "emit": False,
-            "invariants": ["StreamingEqualsWhole", "NothingLost"], "ports": ports({"bytes": 1}, {"bytes": 1}), "workers": 8}],
+            "invariants": ["StreamingEqualsWhole", "NothingLost"], "ports": ports({"bytes": 1}, {"bytes": 1}), "workers": 8},
+           {"module": "MCUtf8Abs", "model": "utf8-class-abstraction", "kind": "bytes", "plain": True, "emit": False, "tiers": ("thorough",),
+            "invariants": ["TailsAreOK", "StepKeepsTailOK", "ClassAbstractionSound", "StepAccountsForByte"], "ports": ports({}, {}), "workers": 4}],
     "gen": [gen("recsoup", 400, 12000, port="bytes", chars=60), gen("soup", 200, 6000), gen("captured", 7, 70, maxbytes=1200)],
     "rule": "byte strings with well-formed 1-4 byte forms, overlongs, surrogates, > U+10FFFF, stray continuation bytes, truncated sequences, "
             "BOM, random chunking and mode switches between chunks; the text delivered to the listener per feed() call is compared by TLC "
